@@ -250,6 +250,12 @@ def check_c03(tier: str) -> int:
             for (k, m), (_, r, fl, mis), dm in zip(msgs, enc, doms):
                 ck.count()
                 dist[f"at{gen}_impl_{'ok' if r[0] == 'ok' else r[1]}"] += 1
+                if r[0] == "ok" and r[1] != len(r[2]):
+                    # whatever the message (inside the theorems' domain or not): the length computed in advance, which
+                    # goes into the header, is the number of bytes produced
+                    ck.violation("round trip fails on the implementation",
+                                 {"kind": "size-vs-encode", "gen": gen, "message": repr(m)[:400],
+                                  "failure": f"size() announces {r[1]} bytes, encode() produced {len(r[2])}: {bytes(r[2]).hex()[:200]}"})
                 if fl is None:
                     dist[f"at{gen}_outside_model_value_space"] += 1
                     continue
